@@ -813,6 +813,7 @@ func canonResults(sch *Schema, ops []Op, res []ActRes) string {
 // loadState fills a fresh database with exactly the rows of st, in a single
 // transaction of inserts (so that references between the rows resolve).
 func loadState(d database.Database, e *Env, st DBState) error {
+	simrt.Heartbeat.Add(1) // analysis is progress too (watchdog food)
 	var ops []Op
 	for _, tn := range e.Sch.TableNames {
 		for _, u := range SortedKeys(st[tn]) {
